@@ -4,9 +4,9 @@ from concurrent.futures import ThreadPoolExecutor, as_completed
 
 VERIF = os.path.dirname(os.path.dirname(os.path.abspath(__file__)))
 REPO = os.environ.get('VERIF_REPO', '/repo')
-KANI_DIR = os.path.join(VERIF, 'kani')
+KANI_DIR = os.environ.get('VERIF_KANI_DIR', os.path.join(VERIF, 'kani'))
 CACHE = os.path.join(VERIF, '.cache')
-KTARGET = os.path.join(CACHE, 'kani-target')
+KTARGET = os.environ.get('VERIF_KTARGET', os.path.join(CACHE, 'kani-target'))
 NTARGET = os.path.join(CACHE, 'native-target')
 KNOWN_FILE = os.path.join(VERIF, 'KNOWN_FINDINGS.txt')
 
